@@ -201,6 +201,16 @@ Definition retry_handler (e : event) : M unit :=
               match fst x with Ok _ => ret tt | Err e => fail e end
   end.
 
+(* connector.go: the connector function (scripted: fails its first k invocations per event), invoked with the connector event
+   the generic event carries; the record handed to the token names the event: run := |event ID|, foreign ID of the event *)
+Definition conn_view (e : event) : record :=
+  mkRecord 0%N (e_fid e) (Z.to_N (Z.abs (e_id e))) RSUnknown (e_id e) ODeleted (e_created e) (e_created e) 0 0%N (-999999).
+Definition conn_handler (cid : N) (k : nat) (e : event) : M unit :=
+  n <- att_bump (ufun_code (UFConn cid)) (Z.to_N (Z.abs (e_id e))) ;;
+  w <- get_w ;;
+  emit (TUser (UFConn cid) (conn_view e) None (w_now w) (if Nat.ltb n k then UErr 70 else UOk)) ;;;
+  if Nat.ltb n k then fail EGen else ret tt.
+
 (* ---------- per-unit configuration ---------- *)
 Definition find_step (s : Z) : option stepcfg := find_first (fun x => sc_status x =? s) (ec_steps c).
 Definition find_to (s : Z) : option tocfg := find_first (fun x => to_status x =? s) (ec_tos c).
@@ -211,12 +221,13 @@ Definition unit_topic (u : eunit) : topic :=
   | EStep s _ _ | EInserter s | EPoller s => TStatus s
   | EHook _ | ERetry => TRunStateChange
   | EDelete => TDelete
+  | EConn cid _ _ => TConn cid
   | EOutbox | ESched _ => TDelete
   end.
 
 Definition unit_filter (u : eunit) (e : event) : bool :=
   match u with
-  | EStep _ i n => shard_skip i n (e_id e)
+  | EStep _ i n | EConn _ i n => shard_skip i n (e_id e)
   | EHook st => filter_by_state st e
   | ERetry => filter_by_state RSPaused e
   | _ => false
@@ -242,6 +253,7 @@ Definition unit_handler (inst : Z) (u : eunit) (e : event) : M unit :=
   | EHook st => hook_handler st (match find_first (fun h => rs_eqb (fst h) st) (ec_hooks c) with Some h => snd h | None => O end) e
   | EDelete => delete_handler e
   | ERetry => retry_handler e
+  | EConn cid _ _ => conn_handler cid (match find_first (fun x => N.eqb (cn_id x) cid) (ec_conns c) with Some x => cn_fail x | None => O end) e
   | _ => fail EGen
   end.
 
@@ -279,7 +291,7 @@ Definition m_release (u : eunit) (inst : Z) : M unit := w <- get_w ;; put_w (rel
 Definition m_acquire (u : eunit) (inst : Z) : M unit := w <- get_w ;; put_w (acquire_role w u inst).
 
 Definition is_consumer (u : eunit) : bool :=
-  match u with EStep _ _ _ | EInserter _ | EHook _ | EDelete | ERetry => true | _ => false end.
+  match u with EStep _ _ _ | EInserter _ | EHook _ | EDelete | ERetry | EConn _ _ _ => true | _ => false end.
 
 (* workflow.go runOnce after process() returned error [e]; [close] = a receiver is open (deferred stream.Close()) *)
 Definition exit_err (inst : Z) (u : eunit) (close : bool) (e : err) : M pstate :=
@@ -490,7 +502,8 @@ Inductive eop :=
 | OSched (inst : Z) (fid : N) (valid : bool)   (* Workflow.Schedule: starts the scheduling process, or rejects an invalid cron specification *)
 | OLose (inst : Z) (u : eunit)          (* the role scheduler revokes the lease of a parked process (it notices at its next step) *)
 | ORewind (u : eunit) (pos : nat)
-| ODup (idx : nat).
+| ODup (idx : nat)
+| OConnSend (cid : N) (id : Z) (fid : N).   (* the external system behind connector cid produces an event; id = int64(fnv64(its ID)) *)
 
 Definition run_api (w : world) (p : plan) (m : M unit) : world * list tok :=
   match m (mkOst w p [] [] true false) with
@@ -529,6 +542,8 @@ Definition run_op (w : world) (o : eop) : world * list tok :=
     | Some e => (set_log w (w_log w ++ [mkEvent (Z.of_nat (length (w_log w)) + 1) (e_wf e) (e_topic e) (e_run e) (e_fid e) (e_type e) (e_state e) (e_ver e) (e_created e)]), [])
     | None => (w, [])
     end
+  | OConnSend cid id fid =>
+    (set_log w (w_log w ++ [mkEvent id 0%N (TConn cid) 0%N fid 0 0 0 (w_now w)]), [])
   end.
 
 Fixpoint run_ops_from (n : nat) (w : world) (ops : list eop) : world * list tok :=
